@@ -187,6 +187,8 @@ m("c08-named-result-refactor",["C08","C13","C12"],"cpu.go","func (cpu *CPU) Run(
 m("c12-fixed-trip-loop-refactor",["C12","C13","C09","C01","C05"],"cpu.go","\tl, h := fromU16(v)\n\tcpu.Memory.Set(addr, l)\n\tcpu.Memory.Set(addr+1, h)\n","\tfor i := uint(0); i < 2; i++ {\n\t\tcpu.Memory.Set(addr+uint16(i), uint8(v>>(8*i)))\n\t}\n",expect="silent",note="a loop below Step with a fixed trip count: same accesses in the same order")
 m("c12-data-dependent-loop",["C12","C13"],"cpu.go","\tl, h := fromU16(v)\n\tcpu.Memory.Set(addr, l)\n\tcpu.Memory.Set(addr+1, h)\n","\tl, h := fromU16(v)\n\tcpu.Memory.Set(addr, l)\n\tcpu.Memory.Set(addr+1, h)\n\tfor n := l; n&1 != 0; n >>= 1 {\n\t}\n",note="a loop below Step whose trip count depends on data")
 m("c08-run-adjusts-pc-before-return",["C08","C13"],"cpu.go","\t\tif cpu.HALT {\n\t\t\tbreak\n\t\t}\n\t}\n\treturn nil","\t\tif cpu.HALT {\n\t\t\tbreak\n\t\t}\n\t}\n\tcpu.PC++\n\treturn nil",note="Run moves PC past the HALT opcode before it returns: not a state reached by whole Steps")
+m("c13-poll-only-when-r-wraps",["C13","C08"],"cpu.go","\t\tif atomic.LoadInt32(&canceled) != 0 {","\t\tif cpu.IR.Lo&0x7f == 0 && atomic.LoadInt32(&canceled) != 0 {",note="the flag is polled only when the refresh counter wraps: a loop of prefixed instructions entered with odd R never polls")
+m("c10-step-reads-halt",["C10"],"cpu.go","\t// execute an op-code.\n\tcpu.executeOne()","\tif cpu.HALT && cpu.IFF1 {\n\t\tcpu.IR.Lo = cpu.IR.Lo&0x80 | (cpu.IR.Lo+1)&0x7f\n\t\treturn\n\t}\n\tcpu.executeOne()",note="Step depends on CPU.HALT, which States does not contain: a CPU rebuilt from States and memory diverges")
 # ---- C16
 m("c16-resetflag-and",["C16"],"flag.go","gpr.AF.Lo &= ^uint8(f)","gpr.AF.Lo &= uint8(f)")
 m("c16-getflag-all-bits",["C16"],"flag.go","return gpr.AF.Lo&uint8(f) != 0","return gpr.AF.Lo&uint8(f) == uint8(f)",note="differs only for combined masks")
